@@ -7,3 +7,7 @@ float v_arg_f(const char *msg, unsigned idx) { return rtosc_argument(msg, idx).f
 int64_t v_arg_h(const char *msg, unsigned idx) { return rtosc_argument(msg, idx).h; }
 const char *v_arg_s(const char *msg, unsigned idx) { return rtosc_argument(msg, idx).s; }
 int v_arg_T(const char *msg, unsigned idx) { return rtosc_argument(msg, idx).T; }
+/* out-parameter forms used by tools/ll2c.py for by-value aggregate returns (ABI_OUT) */
+#include <string.h>
+void ll_rtosc_argument(const char *msg, unsigned idx, void *out) { rtosc_arg_t a = rtosc_argument(msg, idx); memcpy(out, &a, sizeof a); }
+void ll_rtosc_itr_next(rtosc_arg_itr_t *itr, void *out) { rtosc_arg_val_t a = rtosc_itr_next(itr); memcpy(out, &a, sizeof a); }
